@@ -203,14 +203,17 @@ def agent_groups(agent) -> "OrderedDict[str, dict]":
         v = attrs[name]
         cells = {}
         walk(v, cells, name)
-        groups["attr:" + name] = {"kind": classify(v, name in ctor_params), "cells": cells}
+        g = {"kind": classify(v, name in ctor_params), "cells": cells}
+        if is_immutable(v):
+            g["imm"] = repr(v)          # no mutable cell, but the value itself must be carried over by a copy
+        groups["attr:" + name] = g
     return groups
 
 
 def group_value(g: dict) -> str:
     """order-independent fingerprint of a group's contents (by path suffix and value)"""
     items = sorted((p.split(".", 1)[-1] if "." in p else p, v) for p, v in g["cells"].values())
-    return _h(repr(items).encode())
+    return _h(repr((items, g.get("imm"))).encode())
 
 
 def alias_pairs(groups_by_agent: dict[int, "OrderedDict[str, dict]"]):
